@@ -47,7 +47,13 @@ def mesh(rng, els, gap, vcount, indices, nsub, start_index, material=0, vdata=No
 def model(rng, version, lods, materials=("mat_a.mtrl",), bones=(), shapes=(), bone_tables=()):
     return {"version": version, "lods": [{"meshes": ms} for ms in lods], "materials": list(materials), "bones": list(bones),
             "attributes": ["atr_x"], "shapes": list(shapes), "bone_tables": [list(b) for b in bone_tables],
-            "radius_bits": rng.getrandbits(31)}
+            "radius_bits": rng.getrandbits(31),
+            # header data behind the shape tables: non-zero, so that a shift of any of it shows in the written bytes
+            "submesh_bone_map": [rng.randrange(1, 64) for _ in range(rng.choice([0, 1, 2, 5]))],
+            "padding": rng.choice([0, 0, 1, 3, 7]), "padding_bytes": [rng.randrange(1, 256) for _ in range(7)],
+            "box_bits": [(0x3F000000 + rng.getrandbits(22)) for _ in range(32 + 8 * len(bones))],
+            "opaque": {"header": [0x40000000 + rng.getrandbits(20), 0x41000000 + rng.getrandbits(20)] + [rng.getrandbits(16) for _ in range(9)],
+                       "lods": [[0x42000000 + rng.getrandbits(20), 0x43000000 + rng.getrandbits(20)] + [0] * 8 + [rng.getrandbits(24)] for _ in range(3)]}}
 
 
 # ------------------------------------------------------------------ canonical vertices (C07)
